@@ -70,6 +70,13 @@ CLAIMED["C04"]["engine"] = "channel+transport"
 CLAIMED["C04"]["tech"] += "; plus TLA+ model Transport.tla (contract of a transport pair: FIFO, no loss before the close is reported) enumerated by TLC, every operation sequence executed on real in-process / TCP / WebSocket pairs, TLC monitor TransObs (C04_TransportOrder, C04_TransportNoLoss)"
 CLAIMED["C13"]["engine"] = "channel+transport"
 CLAIMED["C13"]["tech"] += "; plus Transport.tla sequences on real pairs, TLC monitor TransObs (C13_TransportClosed: an end that closed refuses to send and receive and reports itself as not connected)"
+CLAIMED["C04"]["engine"] = "channel+transport+tcp-stream+client-life"
+CLAIMED["C04"]["tech"] += "; the TCP byte-path engine (TcpStream.tla, C12 operators on scripted connections) as a fourth view of 'intact, in order'; a builder-made Server with the ping auto-reply and a request handler of its own driven by a raw client (C04_SrvOwnHandler: a request that is not a ping reaches the application's handler exactly once)"
+CLAIMED["C02"]["engine"] = "codec+client-life"
+CLAIMED["C02"]["tech"] += "; a builder-made Server and Client fed a request without uri in processes of their own (C02_SrvSurvives, C08_ClientNoPanic)"
+CLAIMED["C11"]["engine"] = "codec+client-life"
+CLAIMED["C11"]["tech"] += "; the built-in ping auto-reply of a builder-made Client and of a builder-made Server, observed on the wire by a scripted peer (C11_PingReply)"
+CLAIMED["C14"]["engine"] = "hs-server+server-life+transport"
 CLAIMED["C18"]["engine"] = "server-life+listener"
 CLAIMED["C18"]["tech"] += "; plus TLA+ model Listener.tla (listen / dial / accept / close on one listener of each kind, every sequence inside the bound) executed on real listeners, TLC monitor LisObs (C18_ListenerStops: a closed listener takes no dial and hands out no connection)"
 CLAIMED["C08"]["engine"] = "hs-client+client-life"
@@ -77,7 +84,6 @@ CLAIMED["C08"]["tech"] += "; at the level of the Client facade: Client.Establish
 CLAIMED["C09"]["tech"] += "; websocket dial attributes (ws / wss, with and without a TLS configuration): both ends must report the encryption of the URL scheme, TLC monitor TransObs (C09_TransportEncryption)"
 CLAIMED["C13"]["engine"] = "channel+transport+client-life"
 CLAIMED["C13"]["tech"] += "; at the Client facade every connection the client ever made must be seen released by the scripted server (garbage collector off), TLC monitor CliObs (C13_ClientReleases)"
-CLAIMED["C14"]["engine"] = "hs-server+server-life"
 CLAIMED["C14"]["tech"] += "; variants of refused handshakes in which the client resets the connection after its last symbol (server side observed through a hook); the callbacks half of the property also on ServerLife.tla schedules forced on a real Server (outcomes failed / gone / err / stall), TLC monitor SrvObs (C18_CallbacksExact)"
 CLAIMED["C06"]["engine"] = "hs-server+hs-client+channel"
 CLAIMED["C06"]["note"] = HS_NOTE + " Both roles: server role on HsServer behaviours, client role on HsClient behaviours. Established phase: free runs of real sessions (channel engine), sampled schedules."
@@ -116,13 +122,13 @@ m = {
     "serves_properties": ["C18"],
     "kind_free_text": "TLA+ contract of a transport listener (in-process, TCP, WebSocket) with every bounded operation sequence enumerated by TLC, each executed on a real listener and compared step by step, TLC trace monitor"},
    {"name": "transport", "path": "spec/Transport.tla spec/TransportMC.tla spec/TransProps.tla spec/TransObs.tla harness/transd tools/engines/transport.py",
-    "serves_properties": ["C04", "C09", "C13"],
+    "serves_properties": ["C04", "C09", "C13", "C14"],
     "kind_free_text": "TLA+ contract of a connected transport pair (in-process, TCP, WebSocket) with every bounded operation sequence enumerated by TLC, each executed on a real pair and compared step by step, TLC trace monitor"},
    {"name": "blocking", "path": "spec/Blocking.tla spec/BlockingMC.tla spec/BlockObs.tla harness/blockd tools/engines/blocking.py",
     "serves_properties": ["C15"],
     "kind_free_text": "TLA+ wait automata of the context-taking operations checked by TLC against the stated bound, each case timed on the real operation, TLC trace monitor"},
    {"name": "client-life", "path": "spec/ClientLife.tla spec/CliObs.tla harness/clid tools/engines/clientlife.py",
-    "serves_properties": ["C19", "C08", "C13"],
+    "serves_properties": ["C19", "C08", "C13", "C11", "C04", "C02"],
     "kind_free_text": "TLA+ model of the Client's channel cache and listener loop with safety and liveness checked by TLC, fault injection against a real Client, TLC trace monitor"},
    {"name": "channel", "path": "spec/Channel.tla spec/ChannelMC.tla spec/Iso.tla spec/IsoMC.tla spec/ChanProps.tla spec/ChanObs.tla harness/chand tools/engines/chan.py",
     "serves_properties": ["C04", "C06", "C13", "C17"],
@@ -140,7 +146,7 @@ m = {
     "serves_properties": ["C01", "C02", "C11"],
     "kind_free_text": "TLA+ model of the codec (wire keys, classification, decode outcome of deviating wire trees, reply builders, text grammars), TLC enumeration of the bounded domain, execution on the real codec, TLC monitor"},
    {"name": "tcp-stream", "path": "spec/TcpStream.tla spec/TcpStreamMC.tla spec/TcpProps.tla spec/TcpObs.tla harness/tcps tools/engines/tcp_stream.py",
-    "serves_properties": ["C12", "C16"],
+    "serves_properties": ["C12", "C16", "C04"],
     "kind_free_text": "TLA+ model of the TCP byte path + TLC exhaustive check and plan generation, replay on the real tcpTransport over scripted connections, TLC trace monitor"},
    {"name": "hs-client", "path": "spec/HsClient.tla spec/HsClientMC.tla spec/HsProps.tla spec/HsObs.tla harness/hs/client.go tools/engines/hs_client.py",
     "serves_properties": ["C08", "C06", "C09"],
